@@ -696,7 +696,9 @@ func (t *Transport) wrapResponseBody(res *http.Response, wrap wrapResponseBodyFu
 }
 
 func (t *Transport) autoDecodeResponseBody(res *http.Response) {
-	if t.disableAutoDecode || res.Header.Get("Accept-Encoding") != "" {
+	// A body that is still content-encoded (an unsupported coding, or decompression
+	// switched off) is not text in any charset yet: leave it alone.
+	if t.disableAutoDecode || res.Header.Get("Content-Encoding") != "" {
 		return
 	}
 	contentType := res.Header.Get("Content-Type")
